@@ -15,6 +15,9 @@ macro_rules! for_props {
         for_props!(@go $id, $p, $body, [
             props::c01::C01,
             props::c02::C02,
+            props::c12::C12,
+            props::c14::C14,
+            props::c03::C03,
             props::c16::C16,
             props::c07::C07,
             props::c15::C15,
